@@ -103,6 +103,19 @@ def read_size(s):
         if neg:
             return DONTCARE, -tot
         return (DONTCARE if dc else VALID), tot
+    if re.search(r"[+-]", t) and not re.search(r"e[+-]", t):
+        # signs in front of inner components ("1G+5M", "--0m"): strtold reads them; harmless as long as no
+        # component is actually negative (those are rejected by oomd and invalid here)
+        parts = re.findall(r"([+-]?)((?:[0-9]+\.?[0-9]*|\.[0-9]+)[kmgt]?)", t)
+        if "".join(a + b for a, b in parts) == t and parts:
+            tot = F(0)
+            for sign, body in parts:
+                m = _SIZE_TOK_LIBERAL.fullmatch(body)
+                val = F(m.group(1)) * UNITS.get(m.group(3), 1)
+                if sign == "-" and val != 0:
+                    return INVALID, None
+                tot += val
+            return (INVALID, None) if tot > I64_MAX else (DONTCARE, None)
     lib = _tokens(t, _SIZE_TOK_LIBERAL, 3)
     if lib is None:
         # hexadecimal notation (accepted by strtold), possibly mixed with decimal components
